@@ -152,6 +152,8 @@ type version struct {
 	Kind    reconciler.StatusKind
 	Rev     statedb.Revision
 	Present bool
+	Other   reconciler.StatusKind // status recorded for the second reconciler "b" (set by status-only writes)
+	Prev    *version              // the committed version of the object this one replaced
 }
 
 type waitObs struct {
@@ -382,9 +384,14 @@ func (w *world) onHook(point string, db *statedb.DB) {
 	seen := map[uint64]bool{}
 	for o, rev := range w.table.All(rtxn) {
 		seen[o.ID] = true
-		v := version{At: w.now(), ByUser: byUser, ID: o.ID, Val: o.Val, Gen: o.Gen, Kind: getStatus(o).Kind, Rev: rev, Present: true}
+		v := version{At: w.now(), ByUser: byUser, ID: o.ID, Val: o.Val, Gen: o.Gen, Kind: getStatus(o).Kind, Rev: rev, Present: true, Other: o.Statuses.Get("b").Kind}
 		if prev, ok := w.last[o.ID]; ok && prev.Rev == rev && prev.Present {
 			continue
+		}
+		if prev, ok := w.last[o.ID]; ok {
+			p := prev
+			p.Prev = nil
+			v.Prev = &p
 		}
 		w.last[o.ID] = v
 		w.history = append(w.history, v)
